@@ -90,6 +90,36 @@ def handle (entry : String) (j : Json) : Except String Json := do
       | .strm (x :: xs) => rats (attackSpec a d x xs n)
       | .strm [] => Json.null
     pure <| Json.mkObj [("model", exceptJson (attack a d s n)), ("spec", spec)]
+  | "table_call" =>
+    let tbl ← getList getRat (← field j "table")
+    let den ← getRat (← field j "den")
+    let freq ← getArg (← field j "freq")
+    let phase ← getArg (← field j "phase")
+    let n ← getNat (← field j "n")
+    if tbl.isEmpty ∨ den = 0 then throw "table_call: empty table or zero den"
+    pure <| Json.mkObj [("model", arr (optJson ratToJson) (tableCall tbl den freq phase n)),
+                        ("spec", rats (tableSpec tbl den freq phase n))]
+  | "table_getitem" =>
+    let tbl ← getList getRat (← field j "table")
+    let idx ← getRat (← field j "idx")
+    if tbl.isEmpty then throw "table_getitem: empty table"
+    pure <| Json.mkObj [("model", optJson ratToJson (tableGetItem tbl idx)),
+                        ("spec", ratToJson (interpCyc tbl idx))]
+  | "sinusoid" =>
+    let twoPi ← getRat (← field j "two_pi")
+    let freq ← getArg (← field j "freq")
+    let phase ← getArg (← field j "phase")
+    let n ← getNat (← field j "n")
+    let sinF : Rat → Float := fun r => Float.sin (ratToFloat r)
+    pure <| Json.mkObj [("model", arr floatToJson (sinusoid sinF twoPi freq phase n)),
+                        ("spec", arr floatToJson (sinusoidSpec sinF freq phase n))]
+  | "karplus" =>
+    let alpha ← getRat (← field j "alpha")
+    let delay ← getRat (← field j "delay")
+    let memory ← getList getRat (← field j "memory")
+    let n ← getNat (← field j "n")
+    pure <| Json.mkObj [("model", rats (karplus alpha delay memory n)),
+                        ("spec", rats (karplusSpec alpha delay memory n))]
   | _ => throw s!"C19: unknown entry {entry}"
 
 end ALV.Driver.C19
